@@ -107,10 +107,10 @@ CHECKS = {
     "C18": {"runs": [
                      {"name": "tsan", "plan": "tsan", "srcs": T_SRCS, "san": "tsan", "hooks": True, "nosan": ("vsched.c",), "opts": {"quick": {"bound": 1, "drivers": 7, "bound3": 1}, "thorough": {"bound": 2, "drvmask": 0x403ff, "bound3": 1}}},
                      # data plane only, on instances created before the threads start: the threads take read locks only, so nothing orders them for TSan
-                     # thorough: two preemptions on the three shared-descriptor drivers (Urs, Uxor, Uisa), one on the other five; TSan reports a
+                     # thorough: two preemptions on the shared-descriptor driver Urs, one on the other seven; TSan reports a
                      # data-plane race in every schedule anyway, the deeper bound is for the outputs
-                     {"name": "tsan-data", "plan": "tsan", "srcs": T_SRCS, "san": "tsan", "hooks": True, "nosan": ("vsched.c",), "weight": 3, "opts": {"quick": {"bound": 1, "drvmask": 0x3fc00}, "thorough": {"bound": 2, "drvmask": 0x1c00}}},
-                     {"name": "tsan-data-b1", "plan": "tsan", "srcs": T_SRCS, "san": "tsan", "hooks": True, "nosan": ("vsched.c",), "tiers": ("thorough",), "opts": {"thorough": {"bound": 1, "drvmask": 0x3e000}}},
+                     {"name": "tsan-data", "plan": "tsan", "srcs": T_SRCS, "san": "tsan", "hooks": True, "nosan": ("vsched.c",), "weight": 3, "opts": {"quick": {"bound": 1, "drvmask": 0x3fc00}, "thorough": {"bound": 2, "drvmask": 0x400}}},
+                     {"name": "tsan-data-b1", "plan": "tsan", "srcs": T_SRCS, "san": "tsan", "hooks": True, "nosan": ("vsched.c",), "tiers": ("thorough",), "opts": {"thorough": {"bound": 1, "drvmask": 0x3f800}}},
                      {"name": "asan-data", "plan": "asan", "srcs": T_SRCS, "san": "asan", "hooks": True, "nosan": ("vsched.c",), "opts": {"quick": {"bound": 1, "drvmask": 0x3fc00}, "thorough": {"bound": 1, "drvmask": 0x3fc00}}},
                      # bound 3 on the life-cycle drivers is the most expensive run: last, with the largest share of whatever time is left
                      {"name": "asan", "plan": "asan", "srcs": T_SRCS, "san": "asan", "hooks": True, "nosan": ("vsched.c",), "weight": 4, "opts": {"quick": {"bound": 2, "drivers": 7, "bound3": 1}, "thorough": {"bound": 3, "drvmask": 0x403ff, "bound3": 2}}}],
@@ -132,7 +132,7 @@ CHECKS = {
                       "opts": {"quick": {"bound": 1, "drivers": 2}, "thorough": {"bound": 2, "drivers": 5}}, "only_sites": r"result-differs-from-sequential"},
                      # thread independence of the data plane: state shared between calls (a static scratch buffer, a cached flag) is a conflicting access TSan reports
                      {"name": "threads-data", "plan": "tsan", "srcs": T_SRCS, "san": "tsan", "hooks": True, "nosan": ("vsched.c",),
-                      "opts": {"quick": {"bound": 1, "drvmask": 0x3fc00}, "thorough": {"bound": 2, "drvmask": 0x1c00}}, "only_sites": r"result-differs-from-sequential|tsan-data-race"}],
+                      "opts": {"quick": {"bound": 1, "drvmask": 0x3fc00}, "thorough": {"bound": 1, "drvmask": 0x3fc00}}, "only_sites": r"result-differs-from-sequential|tsan-data-race"}],
             "level": "model_checking", "deadline": {"quick": 150, "thorough": 1200},
             "rule": ("(1) data plane: every shape x three lengths x all erasure sets within tolerance (exhaustive for n <= 8 | 10) x decode + reconstruct of every index, with the caller's data, "
                      "fragments, pointer array and index lists on read-only pages that end at (or start after) a PROT_NONE page, in three placements (end-abutting, 16-aligned start, "
